@@ -112,10 +112,17 @@ func init() {
 									okFrom = true
 								}
 							}
+							ownersSet := map[*ssa.Function]bool{}
 							for _, o := range ent.owners {
 								if o == owner {
 									okOwner = true
 								}
+								if of := c.P.Fn(o); of != nil {
+									ownersSet[of] = true
+								}
+							}
+							if !okOwner && c.P.OwnedBy(t.Site.Parent(), ownersSet) {
+								okOwner = true // a private helper of an owner
 							}
 							for _, r := range fsmRestore[owner] {
 								if r == fname+"->"+tn {
